@@ -276,6 +276,15 @@ func specInScope(stack []scope, n int, s scope) bool {
 //@   loop 4 exit[C09] every-imported-edge-of-this-caller-merged: forall(k, 0, len(usedFuncs), inList(get(p.usedFuncs, funcName), usedFuncs[k]))
 //@   loop 5 invariant[C09] imported-top-level-code-kept: len(statements) >= specCountOther(statementsTemp, rangeindex + 1)
 //
+// A parser always has a non-negative token index and a call-graph map; a context that is handed
+// to a parsing function has its three maps and is inside at least one scope.
+//@ invariant (*Parser) p [C13] index-and-call-graph: p.index >= 0 && p.usedFuncs != nil
+//@ type-invariant context c [C13] maps-and-scope: c.variables != nil && c.functions != nil && c.imports != nil && len(c.scopeStack) >= 1
+//
+//@ func (*Parser).evaluateBlockContent
+//@   flag notypeinv: true
+//@   requires[C13] context-has-its-maps: ctx.variables != nil && ctx.functions != nil && ctx.imports != nil
+//
 // Lexical scoping rests on this frame: no parsing function changes a context map that existed
 // when it was called (blocks, loop headers and function bodies work on clones), so a definition
 // made inside a construct can never become visible to its caller.  The call graph p.usedFuncs
@@ -284,6 +293,8 @@ func specInScope(stack []scope, n int, s scope) bool {
 //
 //@ func (*Parser).evaluateImports
 //@   flag nocommon: true
+//@   flag notypeinv: true
+//@   requires[C13] context-has-its-maps: ctx.variables != nil && ctx.functions != nil && ctx.imports != nil
 //@ func (*Parser).evaluateProgram
 //@   flag nocommon: true
 //@ func (*Parser).parse
@@ -308,6 +319,7 @@ func specInScope(stack []scope, n int, s scope) bool {
 //@ func New
 //@   flag modular: true
 //@   ensures[C14] empty-call-graph: result.index == 0 && len(result.tokens) == 0 && result.currFunc == ""
+//@   ensures[C13] has-call-graph-map: result.usedFuncs != nil
 //
 //@ func (*Parser).Parse
 //@   flag modular: true
@@ -372,6 +384,8 @@ func specInScope(stack []scope, n int, s scope) bool {
 //
 //@ func (context).addImport
 //@   flag modular: true
+//@   flag notypeinv: true
+//@   requires[C13] imports-map-exists: c.imports != nil
 //@   requires[C09] alias-not-bound-yet: !has(c.imports, alias)
 //@   ensures[C09] bound: has(c.imports, alias) && get(c.imports, alias) == hash && result == nil
 //
